@@ -45,7 +45,7 @@ def parse(tokens, mode="pvl"):
     # end of the text unless a later token contains its closing character, in
     # which case the tokenisation of the rest is not what this list says
     for i, t in enumerate(tokens):
-        if t[0] in ("BADQ", "BADU"):
+        if t[0] in ("BADQ", "BADU", "BADC"):
             if any(tt[0] == "END" for tt in tokens[:i]):
                 break                      # after END nothing is looked at
             if t[0] == "BADU":
@@ -53,7 +53,12 @@ def parse(tokens, mode="pvl"):
                 # '<m>' token - and then it contains a second '<', which no units
                 # expression may: ill-formed both ways
                 raise Ill("unterminated-units")
-            if any('"' in tt[1] for tt in tokens[i + 1:]):
+            if t[0] == "BADC":
+                if any("*/" in tt[1] for tt in tokens[i + 1:]):
+                    raise Unspec("lexical damage closed by a later token")
+                raise Ill("unterminated-comment")
+            # a quoted string is closed only by the character that opened it
+            if any(t[1][0] in tt[1] for tt in tokens[i + 1:]):
                 raise Unspec("lexical damage closed by a later token")
             raise Ill("unterminated-quoted-string")
     toks = [t for t in tokens if t[0] != "COMMENT"]
